@@ -115,12 +115,14 @@ class SimulatorImaging:
             fill_value=self.exposure_time,
             shape_native=image.shape_native,
             pixel_scales=image.pixel_scales,
+            origin=image.origin,
         )
 
         background_sky_map = Array2D.full(
             fill_value=self.background_sky_level,
             shape_native=image.shape_native,
             pixel_scales=image.pixel_scales,
+            origin=image.origin,
         )
 
         image = self.psf.convolved_array_from(array=image)
@@ -146,6 +148,7 @@ class SimulatorImaging:
                 fill_value=self.noise_if_add_noise_false,
                 shape_native=image.shape_native,
                 pixel_scales=image.pixel_scales,
+                origin=image.origin,
             )
 
         if np.isnan(noise_map).any():
@@ -158,7 +161,9 @@ class SimulatorImaging:
             image = image - background_sky_map
 
         mask = Mask2D.all_false(
-            shape_native=image.shape_native, pixel_scales=image.pixel_scales
+            shape_native=image.shape_native,
+            pixel_scales=image.pixel_scales,
+            origin=image.origin,
         )
 
         image = Array2D(values=image, mask=mask)
